@@ -236,6 +236,14 @@ package server
 //@   at-call ^peer.updateRoutes(withdrawn...) requires path.IsWithdraw
 //@   at-call ^sendfsmOutgoingMsg(peer, withdrawn) requires called(updateRoutes)
 
+// from C12 "kept ... until the per-family long-lived timer expires": the family whose long-lived timer has just
+// fired counts as expired when the peer's restart state is wound up - it never keeps "all expired" from being true
+//@ props C12
+//@ func (*peer).llgrRestartTimerExpired
+//@   claims step
+//@   loop 0 step a.State.Family == family ==> all == header(all)
+
+//@ props C17
 // from C17 "every ... import-RT ... change triggers exactly the advertisements and withdrawals needed": a route that
 // can no longer be imported into the neighbour's VRF replaces one that could (and was advertised): the neighbour is
 // sent the withdrawal, the function does not just drop the change (vrf is in scope at the returns of the VRF block)
